@@ -3,13 +3,16 @@ from mc import pstate
 
 ID = 'C13'
 LEVEL = 'model_checking'
-RULE = ('BFS over editing histories of server.method.ProofState from 14 generated goals (base logic, logic, nat, set): events = every '
-        'suggestion of search_method for every gap and every selection of <=2 visible facts, plus cut / cases / introduction / '
-        'revert_intro / new_var with parameters from a menu derived from the state; every event is applied to a copy (expansion) and '
-        'replayed live (replay of the history on a fresh state); plus every prefix of the recorded steps of the library proofs of the '
-        'tier. Invariants after every error-free event: full re-check succeeds with gaps == placeholders, last line == stated goal, '
-        'ids == positions, citations earlier and visible, finished proofs pass no_gaps=True, export/re-import gives the same lines '
-        'and result, copies are isolated. States merged by (variables, exported proof).')
+RULE = ('BFS over editing histories of server.method.ProofState from 16 generated goals (base logic, logic, nat, set), twice per goal: '
+        'menu "wide" = every suggestion of search_method for every gap and every selection of <=2 visible facts (open parameters '
+        'names / s filled from the state), plus cut (subformulas of goal and hypotheses not yet present) / cases / introduction / '
+        'new_var; menu "narrow" = selections of <=1 fact, cut and introduction only, explored deeper; both menus add conjD1/conjD2 '
+        'forward steps of every visible conjunction at every gap and forward steps suggested for another gap. Every event is applied '
+        'to a copy (expansion) and replayed live (replay of the history on a fresh state); plus every prefix of the recorded steps of '
+        'the library proofs of the tier. Invariants after every error-free event: full re-check succeeds with gaps == placeholders, '
+        'last line == stated goal, ids == positions, citations earlier and visible, finished proofs pass no_gaps=True, '
+        'export/re-import gives the same lines and result, copies are isolated. States merged by (variables, exported proof). '
+        'Where a per-goal state cap is reached, x_cap_hit names the goal, menu and depth; below that depth the goal is fully covered.')
 ASSUMPTIONS = ['state merging by exported proof + variables (every method reads only state.prf and state.vars)',
                'z3 is switched off (z3wrapper.check_z3 = False) as in server.monitor']
 bounds = pstate.bounds
